@@ -13,6 +13,12 @@
      LUnread t r    deferred: one iteration `rt.l.Lock(); delete(rt.readers, t.id); rt.l.Unlock()`
      LNotify t      deferred: the region under t.l (decrement blocked tasks, enqueue, executed = true)
      LStop          Stop: `e.err.CompareAndSwap(nil, ErrStopped)`
+     LRot           no code: the head of the modelled channel moves to its back.  The deferred function sends the
+                    ready tasks of `t.blocked` in Go MAP ITERATION order, which is arbitrary, whereas [notify]
+                    below appends them in insertion order; with fewer idle workers than ready tasks the real
+                    executor therefore starts them in orders the FIFO model alone cannot produce (found by the
+                    trace-inclusion check of Model/ExecutorAccept.v on the unchanged code).  LRot over-approximates:
+                    the channel is treated as a bag (LTake after some LRot receives any queued task).
 
    Per-task program counters of the worker that executes a task are kept in [ph].  A task pointer that
    is enqueued while it is not waiting (a double enqueue, which would make a task run twice) and a write
@@ -129,10 +135,11 @@ Definition notify (s : state) (t : tid) : state :=
   let bl := blocked (T0 t) in
   let ready := fun x => Z.leb (deps (T0 x) - 1) 0 in
   let Ta := fun x =>
+    let r0 := T0 x in          (* one lookup: the trace acceptor evaluates long chains of these closures *)
     if mem x bl then
-      let r := set_deps (T0 x) (deps (T0 x) - 1) in
-      if ready x then set_ph r PQueued else r
-    else T0 x in
+      let r := set_deps r0 (deps r0 - 1) in
+      if Z.leb (deps r0 - 1) 0 then set_ph r PQueued else r
+    else r0 in
   let rt := Ta t in
   let Tb := upd Ta t (mkT (deps rt) [] (readers rt) [] true PDone (dset rt)) in
   mkS Tb (nodes s) (cursor s) (next s) (queue s ++ filter ready bl) (pred (busy s)) (err s)
@@ -144,7 +151,7 @@ Definition cas_err (e : option esrc) (x : esrc) : option esrc :=
 Inductive label :=
 | LRunBegin | LRunKey (k : key) | LRunEnd
 | LTake | LCheck (t : tid) | LFEnd (t : tid) (ok : bool) | LSetErr (t : tid)
-| LUnread (t r : tid) | LNotify (t : tid) | LStop.
+| LUnread (t r : tid) | LNotify (t : tid) | LStop | LRot.
 
 Definition with_task (s : state) (t : tid) (r : trec) (e : option esrc) (l : list event) : state :=
   mkS (upd (tasks s) t r) (nodes s) (cursor s) (next s) (queue s) (busy s) e (broken s) l.
@@ -233,6 +240,12 @@ Definition step (c : cfg) (s : state) (l : label) : option state :=
   | LStop =>
       Some (mkS (tasks s) (nodes s) (cursor s) (next s) (queue s) (busy s) (cas_err (err s) EStop)
                 (broken s) (EvErr EStop :: log s))
+  | LRot =>
+      match queue s with
+      | [] => None
+      | t :: q =>
+          Some (mkS (tasks s) (nodes s) (cursor s) (next s) (q ++ [t]) (busy s) (err s) (broken s) (log s))
+      end
   end.
 
 (* all traces: every finite sequence of enabled labels from [init] *)
